@@ -292,79 +292,84 @@ def impl_run(case):
     im = Impl(case.get('pre', False))
     steps = im.run_script(case['script'])
     hist = [im.mop(m) for m in case.get('hist', [])]
-    late = im.run_script(case.get('late', []))
-    q = case['q']
-    if q['k'] == 'op':
-        res = im.mop(q['o'])
-    elif q['k'] == 'dir':
-        import quantity
-        us = []
-        for s in q['syms']:
-            try:
-                u = quantity.Unit(s)
-                us.append([u.symbol, u.qty_cls.__name__, u is im.units.get(s)])
-            except ValueError:
-                us.append(None)
-        cs = []
-        for c in q['clss']:
-            cls = im.classes.get(c)
-            cs.append(None if cls is None else [u.symbol for u in cls.units()])
-        # the factories on an amount-and-symbol string: type of the instance
-        ps = []
-        for s in q['syms']:
-            ob = W.guarded(lambda: quantity.Quantity('1 ' + s))
-            ps.append(ob['cls'] if ob['k'] == 'qty' else ob.get('e'))
-        res = {'k': 'dir', 'us': us, 'cs': cs, 'parse': ps}
-    elif q['k'] == 'scales':
-        out = []
-        for s in q['syms']:
-            u = im.units.get(s)
-            sc = None
-            if u is not None:
-                cls = u.qty_cls
-                if cls.ref_unit is not None and cls.quantum is None:
-                    try:
-                        e = cls(1, u).equiv_amount(cls.ref_unit)
-                        sc = None if e is None else W._num(e)
-                    except BaseException:     # noqa: a unit without scale in such a type
-                        sc = None
-            out.append(sc)
-        res = {'k': 'scales', 'v': out}
-    elif q['k'] == 'rate':
-        from .qtyops import _num
+    def ask(q):
+        if q['k'] == 'op':
+            res = im.mop(q['o'])
+        elif q['k'] == 'dir':
+            import quantity
+            us = []
+            for s in q['syms']:
+                try:
+                    u = quantity.Unit(s)
+                    us.append([u.symbol, u.qty_cls.__name__, u is im.units.get(s)])
+                except ValueError:
+                    us.append(None)
+            cs = []
+            for c in q['clss']:
+                cls = im.classes.get(c)
+                cs.append(None if cls is None else [u.symbol for u in cls.units()])
+            # the factories on an amount-and-symbol string: type of the instance
+            ps = []
+            for s in q['syms']:
+                ob = W.guarded(lambda: quantity.Quantity('1 ' + s))
+                ps.append(ob['cls'] if ob['k'] == 'qty' else ob.get('e'))
+            res = {'k': 'dir', 'us': us, 'cs': cs, 'parse': ps}
+        elif q['k'] == 'scales':
+            out = []
+            for s in q['syms']:
+                u = im.units.get(s)
+                sc = None
+                if u is not None:
+                    cls = u.qty_cls
+                    if cls.ref_unit is not None and cls.quantum is None:
+                        try:
+                            e = cls(1, u).equiv_amount(cls.ref_unit)
+                            sc = None if e is None else W._num(e)
+                        except BaseException:     # noqa: a unit without scale in such a type
+                            sc = None
+                out.append(sc)
+            res = {'k': 'scales', 'v': out}
+        elif q['k'] == 'rate':
+            from .qtyops import _num
 
-        def thunk():
-            from quantity.money import ExchangeRate
-            ru, mult, rt, amt = q['r']
-            rate = ExchangeRate(im.units[ru], _num(mult), im.units[rt], _num(amt))
-            x = im.opd(q['x'])
+            def thunk():
+                from quantity.money import ExchangeRate
+                ru, mult, rt, amt = q['r']
+                rate = ExchangeRate(im.units[ru], _num(mult), im.units[rt], _num(amt))
+                x = im.opd(q['x'])
 
-            def apply():
-                if q['o'] == 'mul':
-                    return x * rate
-                if q['o'] == 'rmul':
-                    return rate * x
-                return x / rate
-            if q.get('conv'):
-                # a money converter (constant rates from a base currency) is registered
-                # while the rate is applied: it must not be consulted
-                from quantity.money import MoneyConverter
-                conv = MoneyConverter(im.units[q['conv']['base']])
-                conv.update(None, [(im.units[c], _num(a), 1) for c, a in q['conv']['rates']])
-                with conv:
-                    return apply()
-            return apply()
-        res = observe(thunk)
-    elif q['k'] == 'mk':
-        n, u = W.number(tuple(q['n'])), im.units.get(q['u'])
-        if q.get('via'):
-            cls = im.classes[q['via']]
-            res = W.guarded(lambda: cls(n, u))
+                def apply():
+                    if q['o'] == 'mul':
+                        return x * rate
+                    if q['o'] == 'rmul':
+                        return rate * x
+                    return x / rate
+                if q.get('conv'):
+                    # a money converter (constant rates from a base currency) is registered
+                    # while the rate is applied: it must not be consulted
+                    from quantity.money import MoneyConverter
+                    conv = MoneyConverter(im.units[q['conv']['base']])
+                    conv.update(None, [(im.units[c], _num(a), 1) for c, a in q['conv']['rates']])
+                    with conv:
+                        return apply()
+                return apply()
+            res = observe(thunk)
+        elif q['k'] == 'mk':
+            n, u = W.number(tuple(q['n'])), im.units.get(q['u'])
+            if q.get('via'):
+                cls = im.classes[q['via']]
+                res = W.guarded(lambda: cls(n, u))
+            else:
+                res = W.guarded(lambda: im.q.Quantity(n, u))
         else:
-            res = W.guarded(lambda: im.q.Quantity(n, u))
-    else:
-        raise ValueError(q['k'])
-    return {'steps': steps, 'hist': hist, 'late': late, 'res': res}
+            raise ValueError(q['k'])
+        return res
+    # 'first': the query is also asked BEFORE the late declarations (its answer then is
+    # recorded as res0); what is declared afterwards must be honoured by the second answer
+    res0 = ask(case['q']) if case.get('first') else None
+    late = im.run_script(case.get('late', []))
+    res = ask(case['q'])
+    return {'steps': steps, 'hist': hist, 'late': late, 'res': res, 'res0': res0}
 
 
 # ------------------------------------------------------------------ model side
